@@ -108,7 +108,7 @@ class GraphDriver:
                 for k, a in enumerate(G.attackers[before:]):
                     self.bind(act['a0'] + k, a)
             elif op == 'AddGAttacker':
-                a = Attacker(name='ga')
+                a = Attacker(name='ga' if act['reqId'] == 99 else 'gb')
                 self.bind(act['h'], a)
                 if act['reqId'] != 99:
                     G.add_attacker(a, attacker_id=act['reqId'])
@@ -207,7 +207,7 @@ class GraphDriver:
                 'mitre_info': None if n.mitre_info is None else str(n.mitre_info),
                 'tags': [str(t) for t in n.tags] if isinstance(n.tags, (list, tuple)) else repr(n.tags),
                 'extras': json.loads(json.dumps(n.extras, default=str)),
-                'children': sorted(int(c.id) for c in n.children), 'parents': sorted(int(p.id) for p in n.parents),
+                'children': sorted({int(c.id) for c in n.children}), 'parents': sorted({int(p.id) for p in n.parents}),
                 'compromised_by': sorted(int(a.id) for a in n.compromised_by)}
         atk = {}
         for a in G.attackers:
@@ -308,7 +308,11 @@ class GraphDriver:
                 entry.append([self.hof(a), self.hof(n)])
             self.seen_atk_ids[g].add(a.id)
         # the multiset matters for "no duplicate": keep duplicates visible
-        return {'exists': True, 'nodes': sort_set(nodes), 'ch': sorted(ch), 'pa': sorted(pa), 'atk': sort_set(atk),
+        # children / parents are compared as sets (the properties speak of the relation); the attacker-side and
+        # node-side lists keep duplicates visible ("compromising twice changes nothing")
+        ch = sorted([list(x) for x in {tuple(p) for p in ch}])
+        pa = sorted([list(x) for x in {tuple(p) for p in pa}])
+        return {'exists': True, 'nodes': sort_set(nodes), 'ch': ch, 'pa': pa, 'atk': sort_set(atk),
                 'reached': sorted(reached), 'entry': sorted(entry), 'compBy': sorted(comp)}
 
     def index_mismatches(self, g):
@@ -360,6 +364,10 @@ def features_g(act, pre):
         if sum(1 for p in s['reached'] if p[0] == act['h']) >= 2:
             fs.append('attacker_reached_several')
     if op == 'SaveLoad':
+        if pre is not None:
+            names = [a['name'] for a in pre[act.get('g', 'main')]['atk']]
+            if len(set(names)) != len(names):
+                fs.append('two_attackers_same_name')
         fs.append(act['fmt'])
         fs.append('with_model' if act['withModel'] else 'without_model')
     if op == 'Touch':
